@@ -169,7 +169,7 @@ def _select_for_tlc(res, seed, per_tree, frac, cap_full):
     rng = random.Random(seed ^ _crc(res["tree"]))
     if res["gen"] and not res["full"] and rng.random() >= frac:
         return []
-    cap = cap_full if res["full"] else (per_tree if res["gen"] else 3 * per_tree)
+    cap = cap_full if res["full"] else (per_tree if res["gen"] else 2 * per_tree)
     good = [i for i in outs if res["outs"][i]["ok"]]
     bad = [i for i in outs if not res["outs"][i]["ok"]]
     pick = set(good[:1])
@@ -345,7 +345,7 @@ def run(ctx):
     extra, less, textlen = (0, 1, 2) if qk else (0, 0, 3)
     per_tree = 1 if qk else 2
     frac = 0.35 if qk else 0.5
-    cap_full = 60 if qk else 300
+    cap_full = 40 if qk else 300
     full_mod = 3000 if qk else 3000
     _G.update(full=rt.full_product(), pairwise=rt.pairwise(random.Random(ctx.seed)), listed=set(listed), workers=workers)
     ctx.constants = {"themes": THEMES, "bound": "Bound(theme) + %d - %d added nodes" % (extra, less), "TextLen": textlen,
@@ -394,15 +394,19 @@ def run(ctx):
     judge.flush()
     gen_stats = dict(judge.stats)
     # ---- 3. code -> spec on wider inputs ----
-    jobs = wide_trees(ctx, 250 if qk else 5000, 200 if qk else 3000, 150 if qk else 3000)
-    for batch in core.batched(jobs, 2000):
-        for res in core.parallel(_tree_job, batch, chunk=50):
+    jobs = wide_trees(ctx, 150 if qk else 5000, 200 if qk else 3000, 150 if qk else 3000)
+    hand = [j for j in jobs if j["src"] == "hand-built"]
+    rest = [j for j in jobs if j["src"] != "hand-built"]
+    for res in core.parallel(_tree_job, hand, chunk=1):          # one full cross product per worker
+        judge.add(res)
+        if shown < 4 and res["outs"]:
+            shown += 1
+            x = res["outs"][-1]
+            ctx.sample({"code_to_spec_tree": treeproj.show(res["tree"]).replace("\n", " | ")[:300], "options": rt.show_opts(x["rep"]),
+                        "real_output": x["text"][:200], "reparsed_equal": x["ok"], "explained_by": x["why"]})
+    for batch in core.batched(rest, 2000):
+        for res in core.parallel(_tree_job, batch, chunk=25):
             judge.add(res)
-            if res.get("src") == "hand-built" and shown < 4 and res["outs"]:
-                shown += 1
-                x = res["outs"][-1]
-                ctx.sample({"code_to_spec_tree": treeproj.show(res["tree"]).replace("\n", " | ")[:300], "options": rt.show_opts(x["rep"]),
-                            "real_output": x["text"][:200], "reparsed_equal": x["ok"], "explained_by": x["why"]})
     judge.flush()
     ctx.notes["generated_trees"] = gen_stats
     ctx.notes["all_trees"] = judge.stats
